@@ -111,6 +111,7 @@ struct RegistryT<
 	struct BackUp final {
 		CompoForks compoRequested;
 		OrthoForks orthoRequested;
+		CompoRemains compoRemains;
 	};
 
 	// - - - - - - - - - - - - - - - - - - - - - - - - - - - - - - - - - - -
